@@ -224,9 +224,12 @@ func (s *serverSocket) close(reason Reason, err error) {
 	s.closeOnce.Do(func() {
 		s.debug.Log("Going to close the socket. It is not already closed. Reason", reason)
 		close(s.closeChan)
-		defer s.onClose(s.id)
 
-		defer s.getCallbacks().OnClose(reason, err)
+		// Report the close before closing the transport. Closing the transport
+		// can take a while. For example, the close handshake of WebSocket waits
+		// (for 5 seconds) for a peer that might be gone. A ping timeout must not be reported that late.
+		s.getCallbacks().OnClose(reason, err)
+		s.onClose(s.id)
 
 		if reason != ReasonTransportClose && reason != ReasonTransportError {
 			s.transportMu.RLock()
